@@ -26,11 +26,15 @@ import (
 type c15sCase struct {
 	Linear bool `json:"linear"`
 	Ops    []op `json:"ops"`
+	// Reuse: the client uses one core.Context for all its requests (to
+	// every location) instead of a fresh one per request.
+	Reuse bool `json:"reuse,omitempty"`
 }
 
 func genC15Sys(t *rapid.T) c15sCase {
 	var c c15sCase
 	c.Linear = rapid.Bool().Draw(t, "linear")
+	c.Reuse = rapid.Bool().Draw(t, "reuse")
 	n := rapid.IntRange(2, 12).Draw(t, "nops")
 	for i := 0; i < n; i++ {
 		l := fmt.Sprintf("op%d", i)
@@ -133,6 +137,16 @@ func runC15Sys(c c15sCase) *vlib.Outcome {
 		return o
 	}
 	defer func() { shutdown() }()
+	sharedCtx := newCtx()
+	clientCtx := func() *core.Context {
+		if c.Reuse {
+			return sharedCtx
+		}
+		return newCtx()
+	}
+	if c.Reuse {
+		o.Label("one-context-for-all-requests")
+	}
 	t0 := time.Now()
 	rel := func(t time.Time) string { return "+" + t.Sub(t0).String() }
 	var gens []*c15sGen
@@ -160,7 +174,7 @@ func runC15Sys(c c15sCase) *vlib.Outcome {
 			}
 			rule := M{"schedule": sched, "action": M{"code": fmt.Sprintf("Env.record('%s', Env.Location); Env.AddFact('', {fired: '%s'}); 'ok'", tag, tag)}}
 			js, _ := json.Marshal(rule)
-			if _, err := s.AddRule(newCtx(), x.Loc, x.Id, string(js)); err != nil {
+			if _, err := s.AddRule(clientCtx(), x.Loc, x.Id, string(js)); err != nil {
 				o.Fail("ADDRULE_ERROR", "%s: %v", when, err)
 				return o
 			}
@@ -176,17 +190,17 @@ func runC15Sys(c c15sCase) *vlib.Outcome {
 				shared = true
 			}
 		case "rem":
-			s.RemRule(newCtx(), x.Loc, x.Id)
+			s.RemRule(clientCtx(), x.Loc, x.Id)
 			retire(key)
 		case "rule":
 			js, _ := json.Marshal(mkRule(M{"a": "x"}, "ordinary"))
-			if _, err := s.AddRule(newCtx(), x.Loc, x.Id, string(js)); err != nil {
+			if _, err := s.AddRule(clientCtx(), x.Loc, x.Id, string(js)); err != nil {
 				o.Fail("ADDRULE_ERROR", "%s: %v", when, err)
 				return o
 			}
 			retire(key)
 		case "clear":
-			if err := s.ClearLocation(newCtx(), x.Loc); err != nil {
+			if err := s.ClearLocation(clientCtx(), x.Loc); err != nil {
 				o.Fail("CLEAR_ERROR", "%s: %v", when, err)
 				return o
 			}
@@ -207,7 +221,7 @@ func runC15Sys(c c15sCase) *vlib.Outcome {
 				return o
 			}
 			for _, ln := range []string{"A", "B"} {
-				if _, err := s.GetSize(newCtx(), ln); err != nil {
+				if _, err := s.GetSize(clientCtx(), ln); err != nil {
 					o.Fail("RELOAD", "%s: loading %s after the restart failed: %v", when, ln, err)
 					return o
 				}
